@@ -89,6 +89,7 @@ type Frame struct {
 	ghostTyp map[string]types.Type
 	math     bool
 	clo      map[*ssa.Alloc]*ssa.MakeClosure
+	cloFrs   map[*ssa.Alloc]*Frame // frame in which the closure held by a cell was created
 	inlineTag  string
 	atSeen     map[int]bool
 	paramAlias []string
@@ -935,7 +936,10 @@ func (x *Exec) enterLoop(fr *Frame, li *loopInfo, cur *State, ins []edgeState) *
 		}
 	}
 	for g := range fr.ghostLoc {
-		// ghost locals are loop-carried
+		// ghost locals that some at-clause may set inside the loop are loop-carried
+		if !fr.ghostSetInLoop(li, g) {
+			continue
+		}
 		hv.ghost["local:"+g] = x.vc.freshConst("hv_ghost_"+g, fr.ghostLoc[g])
 	}
 	for c := range li.modCells {
@@ -1381,10 +1385,68 @@ func (x *Exec) locOf(fr *Frame, st *State, v ssa.Value, pos token.Pos) *Loc {
 		x.eng.fatalf("%s: locOf non-pointer %s", fr.fn, v)
 	}
 	if isArrayT(pt) {
-		x.eng.fatalf("%s: whole-array access through pointer term not supported (%s)", fr.fn, v)
+		// an array is one block of the element heap; its value is the block
+		if !val.ArrBlock {
+			x.nilCheck(fr, st, val.T, pos, "dereference of "+v.Name())
+		}
+		return &Loc{kind: lHeap, key: x.vc.heapKey("E", pt.Underlying().(*types.Array).Elem()), ptr: val.T, rootT: pt, typ: pt}
 	}
 	x.nilCheck(fr, st, val.T, pos, "dereference of "+v.Name())
 	return &Loc{kind: lHeap, key: x.vc.heapKey("H", pt), ptr: val.T, rootT: pt, typ: pt}
 }
 
 type bigInt = big.Int
+
+// ghostSetInLoop: may an `at <site> set g = ...` clause fire inside loop li?
+// Call sites are matched by callee name (any ordinal); other site kinds are
+// treated conservatively (yes), except `return`, which leaves the loop.
+func (fr *Frame) ghostSetInLoop(li *loopInfo, g string) bool {
+	if fr.ct == nil {
+		return true
+	}
+	for _, at := range fr.ct.Ats {
+		if at.Kind != "set" && at.Kind != "havoc" {
+			continue
+		}
+		lhs := strings.TrimSpace(strings.SplitN(at.Clause.Text, "=", 2)[0])
+		if lhs != g {
+			continue
+		}
+		site := strings.TrimPrefix(at.Site, "before:")
+		if site == "return" {
+			continue
+		}
+		if !strings.HasPrefix(site, "call:") {
+			return true
+		}
+		name := site
+		if i := strings.LastIndex(name, "#"); i >= 0 {
+			name = name[:i]
+		}
+		name = strings.TrimPrefix(name, "call:")
+		for b := range li.blocks {
+			for _, in := range b.Instrs {
+				var cc *ssa.CallCommon
+				switch v := in.(type) {
+				case *ssa.Call:
+					cc = &v.Call
+				case *ssa.Defer:
+					cc = &v.Call
+				case *ssa.Go:
+					cc = &v.Call
+				}
+				if cc == nil {
+					continue
+				}
+				sn := shortCallee(cc)
+				if sn == name {
+					return true
+				}
+				if d := strings.Index(sn, "."); d > 0 && name == sn[:d]+".*" {
+					return true
+				}
+			}
+		}
+	}
+	return false
+}
